@@ -102,8 +102,12 @@ pub fn generate(f: Family, rng: &mut Rng, size: usize) -> Prog {
                     let op = match rng.below(6) {
                         0 => Op::Load(a),
                         1 => Op::Store(a, small(rng, 1, 3) as i64),
-                        2 => Op::FetchAdd(a, small(rng, 1, 2) as i64),
-                        3 => Op::Cas(a, small(rng, 0, 2) as i64, small(rng, 3, 5) as i64),
+                        // read-modify-writes that leave the value unchanged are writes too
+                        2 => Op::FetchAdd(a, if rng.chance(1, 4) { 0 } else { small(rng, 1, 2) as i64 }),
+                        3 => {
+                            let old = small(rng, 0, 2) as i64;
+                            Op::Cas(a, old, if rng.chance(1, 4) { old } else { small(rng, 3, 5) as i64 })
+                        }
                         4 => Op::Swap(a, small(rng, 6, 8) as i64),
                         _ => Op::Load(a),
                     };
